@@ -852,7 +852,7 @@ def run_unknown_mount(ctx, exe, drv, thorough):
         if rc != 0:
             ctx.extra[key] = "not runnable here: mke2fs failed: " + out.strip()[-200:]
             return
-        wrap = ["unshare", "-m", "sh", "-c", 'mount -o loop "$0" "$1" && shift 2 && exec "$@"', img, mnt]
+        wrap = ["unshare", "-m", "sh", "-c", 'mount -o loop "$1" "$2" </dev/null && shift 2 && exec "$@"', "sh", img, mnt]
         sandbox = (mnt + "/sA").encode()
         g = Gen(ctx, sandbox)
         probe = ["init " + H(sandbox), "tree D6161 U F6262:- L6363:6262", "readdir " + H(sandbox), "end"]
@@ -872,14 +872,17 @@ def run_unknown_mount(ctx, exe, drv, thorough):
             t = g.session_tree(0, long_ok=(s_ % 3 == 0))
             t[b"onlylinks"] = ("d", {b"l1": ("l", b"../tgt_dir"), b"l2": ("l", b"../tgt_file"), b"l3": ("l", b"../nothing")})
             metas.append(("tree " + " ".join(dump_tokens(t)), "tree", (), None, None))
-            for loc in ((b"victim",), (b"victim", b"dd"), (b"onlylinks",), ()):
+            # (the judge stops judging a session at its first failure: every other session goes to remove_dir_all without
+            #  having iterated the directories, so that a wrong type and damage outside the tree are reported separately)
+            for loc in ((b"victim",), (b"victim", b"dd"), (b"onlylinks",), ()) if s_ % 2 == 0 else ():
                 p = b"/".join(loc) if loc else sandbox
                 metas.append(("readdir " + H(p), "readdir", loc, None, flat))
                 metas.append(("readdirs " + H(p), "readdirs", loc, None, flat))
             for p_, loc in ((b"victim/dd/ff/x", (b"victim", b"dd", b"ff", b"x")), (b"victim/dd/sk/", (b"victim", b"dd", b"sk")),
                             (b"tgt_blk", (b"tgt_blk",)), (b"victim/dd/new/dir/", (b"victim", b"dd", b"new", b"dir"))):
                 metas.append(("mkdirall " + H(p_), "mkdirall", loc, None, flat, "obstacle:unknown-mount"))
-            metas += g.ops(t, 8 if not thorough else 20)
+            if s_ % 2 == 0:
+                metas += g.ops(t, 8 if not thorough else 20)
             # last (a failed remove_dir_all leaves the twin behind): trees holding links to directories / files outside them
             for loc in ((b"onlylinks",), (b"victim", b"dd"), (b"victim",)):
                 metas.append(("rmall " + H(b"/".join(loc)), "rmall", loc, None, flat))
@@ -907,7 +910,7 @@ def run_unknown_mount(ctx, exe, drv, thorough):
         metas = [metas[i] for i in keep]
         lines = [lines[i] for i in keep]
         twin = [twin[i] for i in keep]
-        judge = Judge(ctx, metas, twin, lines, " ".join(wrap[:4]) + " '" + wrap[4] + "' " + " ".join(wrap[5:]) + " " + exe, unknown=True)
+        judge = Judge(ctx, metas, twin, lines, "[mke2fs -q -t ext2 -O ^filetype,^dir_index IMG (16 MiB)] " + " ".join(wrap[:4]) + " '" + wrap[4] + "' " + " ".join(wrap[5:]) + " " + exe, unknown=True)
         C.correspond(ctx, "fs-dtype-unknown", lines, wrap + [exe], [drv, "--dtype-unknown"], judge, sig_of, timeout=900)
         for m, o in zip(metas, twin):
             if m[1] in ("init", "end", "tree"):
@@ -1041,6 +1044,9 @@ def run(ctx):
         "the kernel's getdents64 order is environment: recorded from the real run and fed to the model; how the records are split over "
         "successive getdents64 answers is environment too: the kernel's own split is compared per call (readdir), arbitrary legal "
         "splits, early end and errno answers are scripted through the sc-shim (readdirs)",
+        "what getdents64 reports as d_type is a property of the file system under the tree (exact type | DT_UNKNOWN for every entry): both are modelled "
+        "(dirRecsOn) and, where root + mke2fs + loop mount are available, both are run (ext2 -O ^filetype,^dir_index in a private mount namespace; "
+        "else evidence says `dtype_unknown_mount: not runnable here`); per-entry mixtures are not modelled",
         "permissions, mount points, concurrent modification, EINTR are outside the model (read_to_end / write_all under EINTR: property C15)",
     ]
     ok = C.lean_prove(ctx, "TinyVerif.Props.C14", drivers=["drv_c14"])
